@@ -566,6 +566,7 @@ class Spec:
                     self.rounding_sensitive += 1
                     o.exactable = False
                     o.undetermined = True
+                    fire = False              # not known to have fired: evaluations are no demand, not "true"
                 # otherwise: the exact decision is the demand (nothing about it hinges on rounding)
         else:
             o.exactable = False
